@@ -98,7 +98,11 @@ def expandApply (m : List (List R)) (rate : List R) (st : List R) : List R :=
   let pz := p.getD 2 0
   p ++ [v.getD 0 0 - (-(r2 * py) + r1 * pz), v.getD 1 0 - (r2 * px - r0 * pz), v.getD 2 0 - (-(r1 * px) + r0 * py)]
 
-/-! ## `get_mask` -/
+/-! ## `get_mask`
+
+The formulas — `maskReduce` (`azim %= 2 * np.pi`), `maskStops` (the test that ends the scan), `maskWrapX0`, `maskInterp` (the returned
+expression) — are translated from the source on every run (Generated/StationGeo*.lean); the control flow around them is written
+here, statement for statement (the extraction refuses a `get_mask` whose statements have another shape). -/
 
 /-- `if azim in self.mask[0, :]: return self.mask[1, np.where(azim == self.mask[0, :])[0][0]]`:
 the elevation of the first table entry whose azimuth equals `az` (float equality written `≤ ∧ ≥`) -/
@@ -106,12 +110,12 @@ def maskHit (az : R) : List (R × R) → Option R
   | [] => none
   | p :: rest => if az ≤ p.1 ∧ p.1 ≤ az then some p.2 else maskHit az rest
 
-/-- the `for next_i, mask_azim in enumerate(...)` loop: stops at the first entry with `mask_azim > azim`;
+/-- the `for next_i, mask_azim in enumerate(...)` loop: stops at the first entry for which `maskStops mask_azim azim` (`mask_azim > azim`);
 returns that entry together with the entry before it (`none` when it stopped at index 0);
 `none` when the loop ran to its end (the `else: next_i = 0` branch) -/
 def maskScan (az : R) : Option (R × R) → List (R × R) → Option (Option (R × R) × (R × R))
   | _, [] => none
-  | prev, p :: rest => if p.1 > az then some (prev, p) else maskScan az (some p) rest
+  | prev, p :: rest => if maskStops p.1 az then some (prev, p) else maskScan az (some p) rest
 
 /-- `TopocentricFrame.get_mask(azim)` for the table `tbl = [(azimuth, elevation), …]` (the columns of
 `self.mask`).  `none` = the code raises (empty table: indexing fails). -/
@@ -119,17 +123,76 @@ def getMask (tbl : List (R × R)) (azim : R) : Option R :=
   match tbl with
   | [] => none
   | first :: rest =>
-    let az := fmod azim (2 * pi)
+    let az := maskReduce azim
     match maskHit az tbl with
     | some y => some y
     | none =>
       let last := (first :: rest).getLast (List.cons_ne_nil first rest)
-      -- (entry next_i - 1, entry next_i); index -1 is the last entry and then `x0 = 0`
+      -- (entry next_i - 1, entry next_i); index -1 is the last entry and then `x0 = maskWrapX0`
       let sel : Option (R × R) × (R × R) := (maskScan az none tbl).getD (none, first)
       let p0 : R × R := match sel.1 with
         | some q => q
-        | none => (0, last.2)
+        | none => (maskWrapX0, last.2)
       let p1 := sel.2
-      some (p0.2 + (p1.2 - p0.2) * (az - p0.1) / (p1.1 - p0.1))
+      some (maskInterp p0.1 p0.2 p1.1 p1.2 az)
+
+/-! ## the life of `station.mask`: given at construction, assigned, modified in place, read
+
+`self.mask` is a plain attribute (checked on the source by the extraction): written by `TopocentricFrame.__init__`
+(`initMask`, translated from the source) and by the caller, read by `get_mask` only, which keeps nothing between two calls. -/
+
+/-- what a caller does with a station after its creation -/
+inductive MaskOp where
+  /-- `station.mask = np.array([[az…], [el…]])` -/
+  | assign (tbl : List (R × R))
+  /-- `station.mask = None` -/
+  | clear
+  /-- `station.mask[:, i] = (az, el)` — in place -/
+  | poke (i : Nat) (p : R × R)
+  /-- `station.get_mask(azim)` -/
+  | query (azim : R)
+
+inductive MaskReply where
+  | done
+  | value (v : R)
+  /-- `IndexError` -/
+  | indexError
+  /-- `ValueError("No mask defined …")` -/
+  | noMask
+  /-- `TypeError` (item assignment on `None`) -/
+  | typeError
+
+/-- `get_mask(azim)` on what `self.mask` currently holds -/
+def storeGet : MaskStore → R → MaskReply
+  | .none, _ => .noMask
+  | .junk, _ => .indexError
+  | .table tbl, azim =>
+    match getMask tbl azim with
+    | some v => .value v
+    | none => .indexError
+
+def maskStep (s : MaskStore) : MaskOp → MaskStore × MaskReply
+  | .assign tbl => (.table tbl, .done)
+  | .clear => (.none, .done)
+  | .poke i p =>
+    match s with
+    | .table tbl => if i < tbl.length then (.table (tbl.set i p), .done) else (s, .indexError)
+    | .none => (s, .typeError)
+    | .junk => (s, .indexError)
+  | .query azim => (s, storeGet s azim)
+
+/-- a history of operations on one station object: final content of `self.mask` and the replies, in order -/
+def maskRun (s : MaskStore) : List MaskOp → MaskStore × List MaskReply
+  | [] => (s, [])
+  | op :: rest =>
+    let r := maskStep s op
+    let t := maskRun r.1 rest
+    (t.1, r.2 :: t.2)
+
+/-- `create_station(..., mask=arg)` (or `TopocentricFrame(name, o, c, mask=arg)`) followed by a history; `none` = the constructor raises -/
+def stationMaskRun (arg : MaskArg) (ops : List MaskOp) : Option (MaskStore × MaskStore × List MaskReply) :=
+  match createStationMask arg with
+  | .raises => none
+  | .stored s => let t := maskRun s ops; some (s, t.1, t.2)
 
 end BeyondVerif.R
